@@ -8,7 +8,7 @@
 (* and histogram bucket (metrics-util Registry of Arc<AtomicU64> /          *)
 (* histogram::AtomicHistogram).  Updaters: a call is three steps - the call  *)
 (* starts (observable), ONE atomic read-modify-write (Inc = fetch_add,       *)
-(* Set = swap, Record = fetch_add on the bucket; not observable), the call   *)
+(* Set = swap, Record / RecordMany(n) = fetch_add(n) on the bucket; not observable), the call   *)
 (* returns (observable).  Reader: MetricsRsVersion::readout visits the       *)
 (* cells one at a time: every counter swap(0), every gauge load, every       *)
 (* histogram bucket swap(0) - each a separate step, interleaved with the     *)
@@ -27,6 +27,7 @@ CONSTANTS Updaters,      \* e.g. {1, 2}
           NReadouts,     \* concurrent readouts (one more runs after everything has returned)
           CKeys, GKeys, HKeys, Buckets,
           IncVals,       \* increments
+          RecCounts,     \* samples per histogram call (n > 1: Histogram::record_many = one fetch_add(n))
           ReaderMode     \* "swap" | "load_store" | "snapshot_clear"
 
 VARIABLES
@@ -67,7 +68,7 @@ Init ==
 SetVal(u) == 10 * u + udone[u] + 1
 
 Ops(u) == [t : {"inc"}, k : CKeys, d : IncVals] \cup [t : {"set"}, k : GKeys, d : {SetVal(u)}]
-          \cup [t : {"rec"}, k : HKeys, d : Buckets]
+          \cup [t : {"rec"}, k : HKeys, d : Buckets, n : RecCounts]
 
 UCall(u) ==
     /\ upc[u] = "idle" /\ udone[u] < NOps
@@ -75,7 +76,7 @@ UCall(u) ==
          /\ uop' = [uop EXCEPT ![u] = op]
          /\ CASE op.t = "inc" -> OIncStart(op.k, op.d)
               [] op.t = "set" -> OWriteStart(op.k, op.d)
-              [] op.t = "rec" -> ORecStart(op.k, op.d, 1)
+              [] op.t = "rec" -> ORecStart(op.k, op.d, op.n)
     /\ upc' = [upc EXCEPT ![u] = "called"]
     /\ UNCHANGED <<cnt, gau, hst, udone, rpc, ridx, rcount, rtmp, dC, dH, dG, linC, linH>>
 
@@ -87,8 +88,8 @@ UApply(u) ==
                             /\ linC' = [linC EXCEPT ![op.k] = @ + op.d]
                             /\ UNCHANGED <<gau, hst, linH>>
          [] op.t = "set" -> gau' = [gau EXCEPT ![op.k] = op.d] /\ UNCHANGED <<cnt, hst, linC, linH>>
-         [] op.t = "rec" -> /\ hst' = [hst EXCEPT ![<<op.k, op.d>>] = @ + 1]
-                            /\ linH' = [linH EXCEPT ![<<op.k, op.d>>] = @ + 1]
+         [] op.t = "rec" -> /\ hst' = [hst EXCEPT ![<<op.k, op.d>>] = @ + op.n]
+                            /\ linH' = [linH EXCEPT ![<<op.k, op.d>>] = @ + op.n]
                             /\ UNCHANGED <<cnt, gau, linC>>
     /\ upc' = [upc EXCEPT ![u] = "applied"]
     /\ UNCHANGED <<uop, udone, rpc, ridx, rcount, rtmp, dC, dH, dG, ovars>>
@@ -98,7 +99,7 @@ URet(u) ==
     /\ LET op == uop[u] IN
        CASE op.t = "inc" -> OIncEnd(op.k, op.d)
          [] op.t = "set" -> OWriteEnd(op.k, op.d)
-         [] op.t = "rec" -> ORecEnd(op.k, op.d, 1)
+         [] op.t = "rec" -> ORecEnd(op.k, op.d, op.n)
     /\ upc' = [upc EXCEPT ![u] = "idle"] /\ udone' = [udone EXCEPT ![u] = @ + 1]
     /\ uop' = [uop EXCEPT ![u] = NoOp]
     /\ UNCHANGED <<cnt, gau, hst, rpc, ridx, rcount, rtmp, dC, dH, dG, linC, linH>>
